@@ -287,11 +287,12 @@ func (c *ctx) concCases() {
 		c.Eval()
 		c.Count("conc:scenario-" + o.Scenario)
 		msg := concOracle(o)
-		if msg != "" {
+		if msg != "" && c.fails["conc-confirmed:"+o.Scenario] < 2 {
 			// once more with a longer quiet period: a slow machine must not look like a lost delivery
 			o2 := runConc(o.Scenario, o.Jitter, 4*quiet)
 			if m2 := concOracle(o2); m2 != "" {
 				o, msg = o2, m2
+				c.fails["conc-confirmed:"+o.Scenario]++
 			} else {
 				c.Count("conc:retried-with-longer-timeouts")
 				o, msg = o2, ""
